@@ -28,7 +28,12 @@ MANIFEST = dict(
           "fields recombine modulo 360 to x with its seconds rounded half-even at decimal n (exactly for n <= 10, "
           "within 1e-10 arcsec beyond, where the 1e-10 carry threshold acts); the value handed to the formatter carries "
           "the sign on exactly the leading non-zero field. For RA the printed value reads back to value/15 rounded at n "
-          "(the hour field is not wrapped and can show 24, which the property, reading printed RA modulo 24 h, allows). str.format/repr are not modelled: the printed strings are parsed by a strict grammar and "
+          "(the hour field is not wrapped and can show 24, which the property, reading printed RA modulo 24 h, allows). "
+          "Also proved: the rounding carry fires exactly when the rounded seconds are 60 and then advances minutes / "
+          "degrees with both wrap-arounds (n <= 10); the seconds shown are a whole multiple of 10**-n (at most n "
+          "decimals); the printed sign is the sign of the value; the print does not depend on the object's tolerance; "
+          "splitting and rebuilding through dms2deg is the identity; with n_dec < 0 the printed fields are dms_tuple's; "
+          "the split after to_positive() is the split of the new value. str.format/repr are not modelled: the printed strings are parsed by a strict grammar and "
           "the predicates (no 60 field, sign once on the leading non-zero field, read-back = rounded value mod 360 / "
           "24 h, at most n decimals) are evaluated on the implementation's strings over values within 1e-12 of whole "
           "seconds/minutes/degrees, 0 and 360, n_dec -1..12, both styles, angle and RA. round(x, n) is a stub "
